@@ -242,7 +242,8 @@ func pointSubtract(p1, p2 Point) Point {
 func dot(u, v Point) float64 { return u.X*v.X + u.Y*v.Y }
 
 // norm = length of  vector
-func norm(v Point) float64 { return math.Sqrt(dot(v, v)) }
+// (math.Hypot, because the square of a small component underflows to zero).
+func norm(v Point) float64 { return math.Hypot(v.X, v.Y) }
 
 // distance = norm of difference
 func d(u, v Point) float64 { return norm(pointSubtract(u, v)) }
